@@ -42,6 +42,21 @@ def is_fresh_container_expr(node):
     return False
 
 
+def _alias_sources(fn, name):
+    """Right-hand sides that bind `name` to an object that exists elsewhere (attribute,
+    subscript, parameter, other name)."""
+    out = []
+    params = {a.arg for a in fn.args.args + fn.args.kwonlyargs}
+    if name in params:
+        out.append("a parameter")
+    for n in ast.walk(fn):
+        if isinstance(n, ast.Assign) and any(isinstance(t, ast.Name) and t.id == name for t in n.targets):
+            v = n.value
+            if isinstance(v, (ast.Attribute, ast.Subscript, ast.Name)) and not (isinstance(v, ast.Subscript) and isinstance(v.slice, ast.Slice)):
+                out.append(ast.unparse(v))
+    return out
+
+
 class Site:
     def __init__(self, rule, where, ok, text, why=""):
         self.rule, self.where, self.ok, self.text, self.why = rule, where, ok, text, why
@@ -122,9 +137,15 @@ def analyse(prog):
                     sites.append(s)
                     if isinstance(n.func.value, ast.Attribute):
                         container_fields_mutated.append((n.func.value.attr, where))
-                if isinstance(n, ast.AugAssign) and isinstance(n.target, ast.Name) and isinstance(n.op, ast.Add):
-                    # x += [..] mutates a list in place when x is a list: only numbers are augmented here
-                    pass
+                if isinstance(n, ast.AugAssign) and isinstance(n.target, ast.Name):
+                    # x += ... extends a list in place when x is bound to an existing list
+                    src = _alias_sources(fn, n.target.id)
+                    if src:
+                        sites.append(Site("F2-augmented-assignment-on-alias", where, False, ast.unparse(n)[:70],
+                                          f"{n.target.id} is bound to {src[0]}: += mutates that object if it is a list"))
+                    else:
+                        sites.append(Site("F2-augmented-assignment-on-local", where, True, ast.unparse(n)[:70],
+                                          "the name is only bound to fresh values in this function"))
                 # ---- F4 structural readers must not read memo fields
                 if fn.name in STRUCTURAL_READERS and isinstance(n, ast.Attribute) and isinstance(n.ctx, ast.Load) \
                         and n.attr in MEMO_FIELDS:
@@ -184,14 +205,30 @@ def _mutation_site(recv, op, where, fresh, in_acc, ci):
 
 
 def heap_log_violations(interp):
-    """Cross-check on one explored path: attribute stores recorded by the executor."""
+    """Cross-check on one explored path: attribute stores and container mutations recorded
+    by the executor."""
     bad = []
+    owner = {}            # id(container) -> (object, field) once stored into a field
+    allocated = set()
     for e in interp.heap_log:
-        if e[0] == "store":
-            _k, obj, attr, where, in_init = e
-            if in_init:
+        kind = e[0]
+        if kind in ("alloc-list", "alloc-dict"):
+            allocated.add(e[1])
+        elif kind == "store":
+            _k, obj, attr, where, in_init = e[:5]
+            if len(e) > 5:
+                owner[e[5]] = (obj, attr)
+            if in_init or attr in MEMO_FIELDS:
                 continue
-            if attr in MEMO_FIELDS:
-                continue
-            bad.append(f"{where}: {obj.name}.{attr}")
+            bad.append(f"{where}: {obj.name}.{attr} written")
+        elif kind in ("mutate-list", "mutate-dict"):
+            cid, where = e[1], e[3]
+            if cid in owner:
+                obj, attr = owner[cid]
+                cname = getattr(obj.cls, "name", "")
+                if ACCUMULATOR_CLASSES.get(cname) == attr:
+                    continue
+                bad.append(f"{where}: container held in {obj.name}.{attr} mutated")
+            elif cid not in allocated:
+                bad.append(f"{where}: a container that was not allocated in this activation was mutated")
     return bad
